@@ -24,6 +24,9 @@ HARNESSES = {
         H("c01_get_info_recall_tree", "lib", "C01.K.get_info.recall_tree", tier="experimental", timeout=3600,
           bounded="ONE concrete 7-node perfect-recall tree; every profile with probabilities in {0, 1/2, 1}"),
     ],
+    "C11": [
+        H("ieee_classification", "data", "K.ieee_classification", complete=True),
+    ],
     "C13": [
         H("ieee_classification", "data", "K.ieee_classification", complete=True),
         H("c13_named_len_prefix_and_content", "lib", "C13.K.named.len_prefix",
